@@ -29,8 +29,9 @@ C18's prefix selection):
   `external_update_rejected` that the kernel rejects an EXTERNAL update of such a file (the finding
   `watch-internal-error:unexpected-hash-update`, repaired in /repo by the restriction).  Both sides
   apply one single-path update per changed file in their own transaction; that their ORDER does not
-  matter is decided by the oracle only (it did matter: finding `watch-differs:external-update-order`,
-  repaired in /repo: a changed output now also makes its consumers pending).
+  matter is decided by the oracle only, and it does matter: known finding
+  `watch-differs:external-update-order` (a changed output makes only its producer pending, so a
+  tampered output and a removed source of its producer give different graphs in the two orders).
 * `watch_glob_eq_rescan_partial`: `process_nglob_changes(deleted, pruned updated)` records what a fresh
   scan records when the two sets are complete for the paths the pattern accepts
   (`GlobEventsComplete`, which a new directory violates: finding F8, oracle).
